@@ -71,6 +71,46 @@ func runSetSweep(a *args) {
 			}
 			add("")
 		}
+		// every 1-byte and every 2-byte string as the value of every metric: accepted iff it is a value of the metric
+		{
+			var wgv sync.WaitGroup
+			for _, m := range ord {
+				wgv.Add(1)
+				go func(m string) {
+					defer wgv.Done()
+					zero := v.Zero()
+					var ns int64
+					buf := make([]byte, 2)
+					try := func(x string) {
+						o := zero.Clone()
+						ns++
+						var e error
+						if p, msg := safely(func() { e = o.Set(m, x) }); p {
+							col.violate(Violation{Property: prop, Kind: "a call panicked", Version: vn, Input: map[string]interface{}{"abv": m, "value_bytes": []byte(x)}, Expected: "no panic", Observed: msg})
+							return
+						}
+						if (e == nil) != legal[m][x] {
+							col.violate(Violation{Property: prop, Kind: "Set accepts/refuses differently from the metric's value set (all 1- and 2-byte values)", Version: vn,
+								Input: map[string]interface{}{"abv": m, "value": x, "value_bytes": []int{int(x[0]), int(x[len(x)-1])}}, Expected: map[string]bool{"accepted": legal[m][x]}, Observed: v.ErrKind(e)})
+						} else if e != nil && !o.Same(zero) {
+							col.violate(Violation{Property: prop, Kind: "a failed Set changed the object", Version: vn, Input: map[string]interface{}{"abv": m, "value_bytes": []byte(x)}, Expected: "unchanged", Observed: o.Vector()})
+						}
+					}
+					for a := 0; a < 256; a++ {
+						buf[0] = byte(a)
+						try(string(buf[:1]))
+						for b := 0; b < 256; b++ {
+							buf[1] = byte(b)
+							try(string(buf[:2]))
+						}
+					}
+					mu.Lock()
+					sets += ns
+					mu.Unlock()
+				}(m)
+			}
+			wgv.Wait()
+		}
 		var wg sync.WaitGroup
 		nw := runtime.GOMAXPROCS(0)
 		for w := 0; w < nw; w++ {
